@@ -55,3 +55,49 @@ Definition run_unit (x : sx) : sx :=
     let e := sx_str (a 1%nat) in
     L [A (add_etag_suffix sfx e); A (strip_etag_suffix sfx e); A (normalize_etag e)]
   else L [A (bytes "unknown-unit-function")].
+
+(* ---- the "lim" family: operation sequences on the size limiter ---- *)
+(* case = L [A "lim"; I max; L [L [A name; I size]...] (files present at start); L ops]
+   op = L [A "add"; A name; I size; I t] | L [A "access"; A name; I size; I t] | L [A "flush"] | L [A "tick"]
+      | L [A "restart"] | L [A "extdel"; A name] | L [A "replace"; A name; I size]
+   observation after each op = L [I estimate; with; without; purged; files] *)
+From Verif Require Import Limiter.
+
+Definition enc_with (m : list (str * (Z * Z))) : sx :=
+  L (map (fun p => L [A (fst p); I (fst (snd p)); I (snd (snd p))]) (sort_hdrs m)).
+Definition enc_without (m : list (str * Z)) : sx :=
+  L (map (fun p => L [A (fst p); I (snd p)]) (sort_hdrs m)).
+Definition enc_files (m : list (str * Z)) : sx := enc_without m.
+
+Definition lim_obs (l : lim) (purged : list str) (files : list (str * Z)) : sx :=
+  L [I (l_size l); enc_with (l_with l); enc_without (l_without l); of_strs (sort_strs purged); enc_files files].
+
+Definition dec_hop (op : sx) : option hop :=
+  let kind := sx_str (sx_nth 0 op) in
+  if str_eqb kind (bytes "add") then Some (HAdd (sx_str (sx_nth 1 op)) (sx_int (sx_nth 2 op)) (sx_int (sx_nth 3 op)))
+  else if str_eqb kind (bytes "access") then Some (HAccess (sx_str (sx_nth 1 op)) (sx_int (sx_nth 3 op)))
+  else if str_eqb kind (bytes "flush") then Some HFlush
+  else if str_eqb kind (bytes "tick") then Some HTick
+  else if str_eqb kind (bytes "restart") then Some HRestart
+  else if str_eqb kind (bytes "extdel") then Some (HExtDel (sx_str (sx_nth 1 op)))
+  else if str_eqb kind (bytes "replace") then Some (HReplace (sx_str (sx_nth 1 op)) (sx_int (sx_nth 2 op)))
+  else None.
+
+Fixpoint run_hops (s : hstate) (ops : list hop) : list sx :=
+  match ops with
+  | [] => []
+  | o :: rest =>
+    let '(s', purged) := hstep s o in
+    lim_obs (fst s') purged (snd s') :: run_hops s' rest
+  end.
+
+Fixpoint dec_hops (ops : list sx) : list hop :=
+  match ops with
+  | [] => []
+  | op :: rest => match dec_hop op with Some h => h :: dec_hops rest | None => dec_hops rest end
+  end.
+
+Definition run_lim (x : sx) : sx :=
+  let max := sx_int (sx_nth 1 x) in
+  let files := map (fun f => (sx_str (sx_nth 0 f), sx_int (sx_nth 1 f))) (sx_list (sx_nth 2 x)) in
+  L (run_hops (hinit files max) (dec_hops (sx_list (sx_nth 3 x)))).
